@@ -1,0 +1,100 @@
+//go:build verif
+
+// Contracts for the fvc verification-condition generator in /verif (comment-only file).
+//
+// C18, part 4: the Request pool. "The resulting request is a deterministic function of the configuration" includes:
+// nothing of the PREVIOUS user of a pooled Request object is part of the configuration of the next one. A Request is
+// configured on the object AcquireRequest hands out; ReleaseRequest resets it and puts it back. The state an object
+// may have inside the pool - requestPoolClean - is proved of what requestPool.New builds (init$3) and of what
+// ReleaseRequest puts (atcall pool-invariant); Reset's postcondition is that state.
+
+package client
+
+//@ props C18
+
+// requestPoolClean(r): EVERY field of Request in its start state (18 fields; the struct is in request.go):
+//   client                                     bound to no client (Send binds the default client then: checkClient)
+//   ctx, body                                  nil
+//   url, userAgent, referer                    ""
+//   method                                     GET
+//   boundary                                   the default boundary
+//   timeout, maxRedirects                      0
+//   bodyType                                   noBody
+//   files                                      none
+//   formData, params                           no pair        (objects kept)
+//   path, cookies                              empty maps     (objects kept)
+//   header                                     no line, no cookie, no user agent (object kept)
+//   RawRequest                                 reset: header holds nothing, no body (object kept)
+// ENGINE: the clause language has no quantifier over the fields of a struct, so "every field" is this enumeration - a field
+// added to Request later and forgotten in Reset is NOT caught by these clauses unless it is added here too (the census
+// below fails to bind when a field is renamed or removed, not when one is added).
+//@ macro argsEmpty(a_) = forallS(k_, forallS(v_, !argHas[a_][k_][v_]))
+//@ macro strMapEmpty(m_) = forallS(k_, !indom(m_, k_))
+//@ macro reqBoundToNoClient(r_) = r_.client == nil
+// (method: Reset writes "GET", requestPool.New leaves it empty - an empty method is sent as GET by fasthttp.)
+//@ macro reqMethodIsGet(r_) = r_.method == fiber.MethodGet || r_.method == ""
+// (boundary: Reset writes the package variable `boundary`, requestPool.New the literal that variable is initialised with.)
+//@ macro reqBoundaryIsDefault(r_) = r_.boundary == boundary || r_.boundary == "--FiberFormBoundary"
+//@ macro reqScalarsReset(r_) = r_.ctx == nil && r_.body == nil && r_.url == "" && reqMethodIsGet(r_) && r_.userAgent == "" && r_.referer == "" && reqBoundaryIsDefault(r_) && r_.timeout == 0 && r_.maxRedirects == 0 && r_.bodyType == noBody
+//@ macro reqCollectionsEmpty(r_) = len(r_.files) == 0 && argsEmpty(r_.formData.Args) && argsEmpty(r_.params.Args) && strMapEmpty(*r_.path) && strMapEmpty(*r_.cookies)
+//@ macro reqHeadersEmpty(r_) = hdrHoldsNothing(r_.header.RequestHeader) && hdrHoldsNothing(r_.RawRequest.Header) && reqBody[r_.RawRequest] == ""
+//@ macro requestPoolClean(r_) = reqBoundToNoClient(r_) && reqScalarsReset(r_) && reqCollectionsEmpty(r_) && reqHeadersEmpty(r_)
+//@ macro reqObjectsKept(r_) = r_.header == old(r_.header) && r_.params == old(r_.params) && r_.cookies == old(r_.cookies) && r_.path == old(r_.path) && r_.formData == old(r_.formData) && r_.RawRequest == old(r_.RawRequest)
+// Reset (fix 834a8ea: r.client was kept - a Request taken from the pool after another client's request had been
+// released went out with THAT client's headers, cookies and jar).
+//@ func (*Request).Reset
+//@   modifies r.client, r.ctx, r.body, r.url, r.method, r.userAgent, r.referer, r.boundary, r.timeout, r.maxRedirects, r.bodyType, r.files, File.name, File.fieldName, File.path, File.reader, argHas, heap(MD_string_string), rhLine, rhUA, rhReferer, rhMethod, rhCType, rhBoundary, jarHas, jarVal, rqHdrHas, rqHdrVal, reqBody
+//@   ensures a-request-taken-from-the-pool-is-bound-to-no-client: reqBoundToNoClient(r)
+//@   ensures scalar-configuration-in-its-start-state: reqScalarsReset(r) && r.method == fiber.MethodGet && r.boundary == boundary
+//@   ensures no-file-no-form-field-no-query-parameter-no-path-parameter-no-cookie-left: reqCollectionsEmpty(r)
+//@   ensures no-header-line-no-cookie-no-body-left-in-header-and-raw-request: reqHeadersEmpty(r)
+//@   ensures keeps-its-own-objects: reqObjectsKept(r)
+
+// ReleaseFile: the file goes back to its pool blank.
+//@ func ReleaseFile
+//@   modifies f.name, f.fieldName, f.path, f.reader
+//@   atcall @sync.(*Pool).Put: pooled-blank: called((*File).Reset) && poolObj(x) == f
+//@   ensures blank: f.name == "" && f.fieldName == "" && f.path == "" && f.reader == nil
+
+// ReleaseRequest: what goes into the pool is pool-clean - every field, see requestPoolClean.
+//@ func ReleaseRequest
+//@   modifies req.client, req.ctx, req.body, req.url, req.method, req.userAgent, req.referer, req.boundary, req.timeout, req.maxRedirects, req.bodyType, req.files, File.name, File.fieldName, File.path, File.reader, argHas, heap(MD_string_string), rhLine, rhUA, rhReferer, rhMethod, rhCType, rhBoundary, jarHas, jarVal, rqHdrHas, rqHdrVal, reqBody
+//@   atcall @sync.(*Pool).Put: pool-invariant--a-pooled-request-is-bound-to-no-client-and-carries-no-configuration: poolObj(x) == req && requestPoolClean(req)
+//@   ensures pool-clean: requestPoolClean(req)
+
+// What BOTH sources of pooled objects establish: ReleaseRequest (the full requestPoolClean, above) and requestPool.New
+// (client, scalars, files; its header / args / raw-request objects are new fasthttp objects, whose content is outside the
+// model).
+//@ macro reqPoolInv(r_) = reqBoundToNoClient(r_) && reqScalarsReset(r_) && len(r_.files) == 0
+//@ func init$3
+//@   ensures pool-new--a-request: typeis(result, *Request) && as(result, *Request) != nil
+//@   ensures pool-new--bound-to-no-client: reqBoundToNoClient(as(result, *Request))
+//@   ensures pool-new--scalars-in-their-start-state: reqScalarsReset(as(result, *Request))
+//@   ensures pool-new--no-files: len(as(result, *Request).files) == 0
+
+// ASSUMPTION about sync.Pool (the one the root package makes for its context pool, zz_contracts_c05_verif.go): Get returns
+// New() or an object that was Put and not touched since, and never hands one object to two users. Hence what
+// requestPool.Get returns satisfies what is proved at its only Put (ReleaseRequest/atcall pool-invariant) and of its New
+// (init$3/post pool-new--*): reqPoolInv. (requestPool holds nothing but *Request: New and the Put are typed so.)
+//@ func @sync.(*Pool).Get assumed pure
+//@   ensures request-pool-type: p == requestPool ==> typeis(result, *Request)
+//@   ensures response-pool-type: p == responsePool ==> typeis(result, *Response) && as(result, *Response) != nil
+//@   ensures request-pool-invariant: typeis(result, *Request) ==> as(result, *Request) != nil && reqPoolInv(as(result, *Request))
+// AcquireRequest: the property's "a Request taken from the pool is bound to no client" (and carries no scalar
+// configuration, no file of its previous user).
+//@ func AcquireRequest
+//@   pure
+//@   ensures a-request-taken-from-the-pool-is-bound-to-no-client: result != nil && reqBoundToNoClient(result)
+//@   ensures and-carries-no-configuration-of-its-previous-user: reqScalarsReset(result) && len(result.files) == 0
+
+// AcquireResponse: the Response object execFunc fills (responsePool holds nothing but *Response: its New and the Put of
+// ReleaseResponse are typed so). No claim about its content here.
+//@ func AcquireResponse
+//@   pure
+//@   ensures result != nil
+//@ func (*Response).setClient
+//@   modifies r.client
+//@   ensures r.client == c
+//@ func (*Response).setRequest
+//@   modifies r.request
+//@   ensures r.request == req
